@@ -338,46 +338,7 @@ func rulesC02(c *Ctx) {
 	ruleDiskCopyFileCloses(c)
 
 	// ---- R7 host paths are exactly root + argument ----------------------------------------------------------
-	n7 := 0
-	for _, mn := range sortedKeys(methods) {
-		f := methods[mn]
-		for _, u := range sinkUses(f) {
-			if u.Call == nil || !isOSSink(u.Call) {
-				continue
-			}
-			n7++
-			con := fmt.Sprintf("diskfs.(Filespace).%s -> %s #%d", mn, lastSeg(u.SinkName), u.ArgIdx)
-			// parts: [root field][reduced param] and nothing constant after it
-			ok := true
-			why := ""
-			seenParam := false
-			for _, part := range u.Parts {
-				isParam := false
-				isConst := true
-				for _, l := range part {
-					if l.Param != nil {
-						isParam = true
-					}
-					if l.NonConst {
-						isConst = false
-					}
-				}
-				if isParam {
-					seenParam = true
-					continue
-				}
-				if seenParam && isConst {
-					// a constant after the argument
-					for _, l := range part {
-						if s, isS := constString(l.Origin.Val); isS && s != "" && s != "/" {
-							ok, why = false, fmt.Sprintf("the constant %q is appended to the addressed path", s)
-						}
-					}
-				}
-			}
-			c.Check(ok, "R7", con, u.Pos(), "root + reduced argument ["+describeParts(u)+"]", why+" — the operation touches a sibling of the addressed node ["+describeParts(u)+"]")
-		}
-	}
+	n7 := ruleHostPathExact(c, "R7", methods, nil)
 	c.Floor("R7", n7, 8)
 	_ = types.Typ
 
@@ -485,7 +446,7 @@ func ruleDiskCopyFileCloses(c *Ctx) {
 			switch qualName(ci.Static) {
 			case "os.Create", "os.OpenFile":
 				create = call
-			case "io.Copy":
+			case "io.Copy", "io.CopyBuffer", "io.CopyN":
 				cp = call
 			}
 		}
@@ -691,4 +652,53 @@ func dirEdgeAlwaysCreates(f *ssa.Function, info *ssa.Parameter) bool {
 		}
 	}
 	return any
+}
+
+// ruleHostPathExact (C02.R7, C04.R8): every host path a disk-filespace method hands to an OS primitive is
+// exactly root + reduced argument - nothing constant is appended (a ".tmp" sibling, a suffix).
+func ruleHostPathExact(c *Ctx, rule string, methods map[string]*ssa.Function, only map[string]bool) int {
+	n7 := 0
+	for _, mn := range sortedKeys(methods) {
+		if only != nil && !only[mn] {
+			continue
+		}
+		f := methods[mn]
+		for _, u := range sinkUses(f) {
+			if u.Call == nil || !isOSSink(u.Call) {
+				continue
+			}
+			n7++
+			con := fmt.Sprintf("diskfs.(Filespace).%s -> %s #%d", mn, lastSeg(u.SinkName), u.ArgIdx)
+			// parts: [root field][reduced param] and nothing constant after it
+			ok := true
+			why := ""
+			seenParam := false
+			for _, part := range u.Parts {
+				isParam := false
+				isConst := true
+				for _, l := range part {
+					if l.Param != nil {
+						isParam = true
+					}
+					if l.NonConst {
+						isConst = false
+					}
+				}
+				if isParam {
+					seenParam = true
+					continue
+				}
+				if seenParam && isConst {
+					// a constant after the argument
+					for _, l := range part {
+						if s, isS := constString(l.Origin.Val); isS && s != "" && s != "/" {
+							ok, why = false, fmt.Sprintf("the constant %q is appended to the addressed path", s)
+						}
+					}
+				}
+			}
+			c.Check(ok, rule, con, u.Pos(), "root + reduced argument ["+describeParts(u)+"]", why+" — the operation touches a sibling of the addressed node ["+describeParts(u)+"]")
+		}
+	}
+	return n7
 }
